@@ -53,6 +53,13 @@ func NewFuzzySearcher(indexReader search.Reader, term string,
 		return nil, fmt.Errorf("invalid fuzziness, negative")
 	}
 
+	if fuzziness == 0 {
+		// no edit allowed: the only candidate is the term itself (there is no
+		// automaton for distance 0, getLevAutomatons returns an empty slice)
+		return NewMultiTermSearcherIndividualBoost(indexReader, []string{term}, []float64{1.0}, field,
+			boost, scorer, compScorer, options, true)
+	}
+
 	// Note: we don't byte slice the term for a prefix because of runes.
 	prefixTerm := ""
 	for i, r := range term {
